@@ -17,7 +17,20 @@ import (
 	"github.com/dgraph-io/badger/v4/y"
 )
 
-func init() { register("C16", runC16) }
+func init() {
+	register("C16", func(c *Ctx) error {
+		// records as valueLog.write lays them out in an encrypted file (several records per
+		// request, file rotations) and reads them back through their value pointers
+		nh := 3
+		if c.N >= 10000 {
+			nh = 120
+		}
+		if err := runVlogPhase(c, nh, true); err != nil {
+			return err
+		}
+		return runC16(c)
+	})
+}
 
 const (
 	lbitTxn    = 1 << 6
@@ -274,7 +287,6 @@ func wholeUnits(b *builtLog, out []badger.VerifLogEntry, fid uint32) (int, bool)
 	}
 	return 0, false
 }
-
 
 func (c *Ctx) iterCase(kind string, data []byte, offset uint32, in interface{}) ([]badger.VerifLogEntry, uint32, int) {
 	out, vend, cls := badger.VerifLogIterate(data, 0, offset, nil, nil)
